@@ -20,7 +20,9 @@ import (
 type vSrc struct {
 	chunks []string // the writes
 	next   int
-	off    int // bytes of chunks[next] already handed out
+	off    int     // bytes of chunks[next] already handed out
+	at     []int64 // optional: the instant each write happens
+	eof    bool    // after the last write the stream ends (the plugin closed it) instead of staying silent
 }
 
 func (*vSrc) Read(p []byte) (int, error) { return 0, io.EOF }
@@ -49,8 +51,14 @@ func mBufRead(b *bufio.Reader, p []byte) (int, error) {
 	if g.n == 0 {
 		s := g.src
 		if s.next >= len(s.chunks) {
+			if s.eof {
+				return 0, io.EOF
+			}
 			vDaemon()
 			<-never
+		}
+		if s.next < len(s.at) && s.off == 0 {
+			vSleepUntil(s.at[s.next])
 		}
 		w := s.chunks[s.next]
 		take := len(w) - s.off
@@ -197,6 +205,34 @@ func harnessC11large() {
 	} else {
 		vCover("one-chunk")
 	}
+	vDone()
+}
+
+// harnessC11eof: the plugin closes one of its two streams (stderr ends after one write) and goes on writing to the
+// other: the surviving stream keeps being delivered.
+func harnessC11eof() {
+	o1, o2, e1 := chunk("o1"), chunk("o2"), chunk("e1")
+	srcOut := &vSrc{chunks: []string{o1, o2}, at: []int64{0, 2000000000}}
+	srcErr := &vSrc{chunks: []string{e1}, eof: true}
+	if vChoice(2) == 1 { // or the other way round
+		vCover("stdout-closed")
+		srcOut, srcErr = &vSrc{chunks: []string{e1}, eof: true}, &vSrc{chunks: []string{o1, o2}, at: []int64{0, 2000000000}}
+	} else {
+		vCover("stderr-closed")
+	}
+	srv := newGRPCStdioServer(vLogger{}, srcOut, srcErr)
+	go func() { vDaemon(); srv.StreamStdio(&empty.Empty{}, &srvStream{bgCtx{}}) }()
+	wOut, wErr := &vWriter{}, &vWriter{}
+	cl := &grpcStdioClient{log: vLogger{}, stdioClient: &cliStream{bgCtx{}}}
+	go func() { vDaemon(); cl.Run(wOut, wErr) }()
+	vSleepUntil(5000000000)
+	long, short := wOut, wErr
+	if len(srcOut.chunks) == 1 {
+		long, short = wErr, wOut
+	}
+	vAssert(len(short.got) == 1 && short.got[0] == e1, "C11: what was written to a stream before the plugin closed it is delivered")
+	vAssert(len(long.got) == 2 && long.got[0] == o1 && long.got[1] == o2, "C11: after the plugin closed one of its streams, what it writes to the other is still delivered")
+	vCover("delivered")
 	vDone()
 }
 
